@@ -3,7 +3,6 @@ package main
 import (
 	"fmt"
 	"go/token"
-	"regexp"
 	"sort"
 	"strings"
 
@@ -15,7 +14,8 @@ func init() {
 		ID:    "C03",
 		Title: "trust comes only from the stores the applicable policy names, typed by scheme",
 		Run:   runC03All,
-		Explain: "(a) who-may-call: X509TrustStore.GetCertificates is invoked at exactly one product site; (b) at that site the type argument is the loader's type parameter, the name is the part after ':' of an element of the trustStores parameter " +
+		Explain: "(a) who-may-call: X509TrustStore.GetCertificates is invoked at exactly one product site; (b) at that site the type argument is the loader's wanted-type input, the name is the part after the first ':' (strings.Cut, or Index/IndexByte + slicing) of an element of the loader's trust-store list input " +
+			"(an input is a parameter, or a field of a parameter object — receiver or options struct of an unexported type, by value or by pointer — that still holds what the caller stored into it; at a call site the input's argument is the call argument or the single value stored into that field before the hand-over, also through an object constructor) " +
 			"(or of the entry parameter of a per-entry loader that forwards exactly what GetCertificates returned and whose closed call sites pass such an element), " +
 			"the call is cut by separator-found and by wanted type == prefix (mismatch never reaches the call), a load error leaves the iteration only through failing exits, failing exits return a nil slice, and the result slice is appended only from those calls; " +
 			"(c) scheme -> store type: ca iff notary.x509, signingAuthority iff notary.x509.signingAuthority, anything else fail-closed (switch/if, a mapping helper, or a constant never-written table with an ok test); tsa only for notary.x509 and only from the timestamp path; the scheme is the verified envelope's; " +
@@ -97,14 +97,15 @@ func runC03(c *Ctx) {
 		return
 	}
 	typeD, nameD := desc(args[2]), desc(args[3])
-	// the listed entry that is cut at ':' is an element of the trustStores parameter — or, when the body of the per-entry loop
+	// the inputs of the loader, as values (fourth pass): the wanted type is an input of G (a parameter, or a field of a parameter
+	// object); the listed entry that is cut at ':' is an element of a list input of G — or, when the body of the per-entry loop
 	// is a function of its own, a string parameter of that function (decided at its call sites, below)
-	reName := regexp.MustCompile(`^call:strings\.Cut\((param:[A-Za-z0-9_]+)(\[.*\])?,const:":"\)#1$`)
-	m := reName.FindStringSubmatch(nameD)
-	okType := strings.HasPrefix(typeD, "param:") && !strings.Contains(typeD, ".")
+	typeIn, okType := c03InputOf(w, args[2])
+	okType = okType && typeIn.of(G)
+	storesIn, storesD, entryParam, okName := c03NameSubject(w, G, args[3], nameD)
 	c.Check(okType, "loader/type-argument", "provenance: the store type passed to GetCertificates is the loader's wanted-type parameter", w.InstrPos(L), "type argument is "+typeD)
-	c.Check(m != nil, "loader/name-argument", "provenance: the store name passed to GetCertificates is strings.Cut(element of the trustStores parameter, \":\") part 2", w.InstrPos(L), "name argument is "+nameD)
-	if m == nil || !okType {
+	c.Check(okName, "loader/name-argument", "provenance: the store name passed to GetCertificates is strings.Cut(element of the trustStores parameter, \":\") part 2", w.InstrPos(L), "name argument is "+nameD)
+	if !okName || !okType {
 		return
 	}
 	cutBase := strings.TrimSuffix(nameD, "#1")
@@ -113,44 +114,43 @@ func runC03(c *Ctx) {
 	c.Check(labelHas(g, "T("+cutBase+"#2)"), "loader/separator", "effect-site gate: GetCertificates is reached only when the separator was found", w.InstrPos(L), "guards: "+summarizeLabels(g, 8))
 	c.Check(labelHas(g, "EQ("+typeD+","+cutBase+"#0)") || labelHas(g, "EQ("+cutBase+"#0,"+typeD+")"), "loader/type-filter",
 		"effect-site gate: GetCertificates is reached only when the wanted type equals the prefix of the listed store (stores of another type are never loaded)", w.InstrPos(L), "guards: "+summarizeLabels(g, 8))
-	if m[2] != "" {
-		c03LoaderBody(c, G, L, typeD, m[1])
+	if storesIn.valid() {
+		c03LoaderBody(c, G, L, typeD, storesD, typeIn, storesIn)
 		return
 	}
-	// per-entry loader: G handles one listed entry (its parameter m[1]). It must hand on exactly what GetCertificates returned
-	// (or nothing), fail when GetCertificates fails, and every call site must pass an element of the caller's trustStores
-	// parameter and the caller's wanted-type parameter; the caller is then the loader, the call its load site.
+	// per-entry loader: G handles one listed entry (its parameter entryParam). It must hand on exactly what GetCertificates
+	// returned (or nothing), fail when GetCertificates fails, and every call site must pass an element of a list input of the
+	// caller and the caller's wanted-type input; the caller is then the loader, the call its load site.
 	c03EntryLoader(c, G, L)
-	entryIdx, typeIdx := -1, -1
-	for i, p := range G.Params {
-		if "param:"+p.Name() == m[1] {
-			entryIdx = i
-		}
-		if "param:"+p.Name() == typeD {
-			typeIdx = i
-		}
-	}
+	entryIdx := c03ParamIndex(entryParam)
 	sitesG, closed := c03CallSites(w, G)
 	ruleE := "provenance: the per-entry loader is called only with an element of the caller's trustStores parameter and the caller's wanted-type parameter"
-	if entryIdx < 0 || typeIdx < 0 || !closed || len(sitesG) == 0 {
+	if entryIdx < 0 || !closed || len(sitesG) == 0 {
 		c.Bad("loader/name-argument", ruleE, w.FnPos(G), "the per-entry loader "+fnName(G)+" can be called with any entry (call-site list not closed, or parameters not found)")
 		return
 	}
-	reElem := regexp.MustCompile(`^(param:[A-Za-z0-9_]+)\[.*\]$`)
 	for _, s := range sitesG {
 		call, isCall := s.(*ssa.Call)
 		if !isCall {
 			c.Bad("loader/name-argument", ruleE, w.InstrPos(s), "the per-entry loader is started by go/defer")
 			continue
 		}
-		td, ed := desc(call.Call.Args[typeIdx]), desc(call.Call.Args[entryIdx])
-		me := reElem.FindStringSubmatch(ed)
-		okT := strings.HasPrefix(td, "param:") && !strings.Contains(td, ".")
+		caller := call.Parent()
+		td := "a field of a parameter object that cannot be followed"
+		var tIn c03Input
+		ta, okT := c03InputArg(w, call, typeIn)
+		if okT {
+			td = desc(ta)
+			tIn, okT = c03InputOf(w, ta)
+			okT = okT && tIn.of(caller)
+		}
+		ed := desc(call.Call.Args[entryIdx])
+		lIn, lD, okE := c03ElemOfInput(w, caller, call.Call.Args[entryIdx])
 		c.Check(okT, "loader/type-argument", "provenance: the store type passed to GetCertificates is the loader's wanted-type parameter", w.InstrPos(call), "type argument of the per-entry loader is "+td)
-		c.Check(me != nil, "loader/name-argument", ruleE, w.InstrPos(call), "entry argument is "+ed)
-		if okT && me != nil {
-			c.SeenFn(call.Parent().String())
-			c03LoaderBody(c, call.Parent(), call, td, me[1])
+		c.Check(okE, "loader/name-argument", ruleE, w.InstrPos(call), "entry argument is "+ed)
+		if okT && okE {
+			c.SeenFn(caller.String())
+			c03LoaderBody(c, caller, call, td, lD, tIn, lIn)
 		}
 	}
 }
@@ -167,7 +167,7 @@ func c03EntryLoader(c *Ctx, G *ssa.Function, L *ssa.Call) {
 
 // c03LoaderBody: G ranges over its trustStores parameter (storesParam) and loads each entry by the call L (GetCertificates itself,
 // or the per-entry loader), whose type argument is G's parameter typeD.
-func c03LoaderBody(c *Ctx, G *ssa.Function, L *ssa.Call, typeD, storesParam string) {
+func c03LoaderBody(c *Ctx, G *ssa.Function, L *ssa.Call, typeD, storesParam string, typeIn, storesIn c03Input) {
 	w := c.W
 	fi := w.Info(G)
 	// every failing exit returns a nil slice; success exits return the accumulated slice
@@ -241,7 +241,7 @@ func c03LoaderBody(c *Ctx, G *ssa.Function, L *ssa.Call, typeD, storesParam stri
 	}
 	c.Check(okRet, "loader/returns-accumulated", "success exits of the loader return the accumulated slice", w.FnPos(G), "a success exit returns something else")
 
-	c03Mapping(c, G, L, typeD, storesParam)
+	c03Mapping(c, G, L, typeIn, storesIn)
 }
 
 // c03SchemeOfEnvelope: v is <S>.SignedAttributes.SigningScheme where S is the SignerInfo of an envelope content — directly, or a
@@ -355,18 +355,9 @@ func c03SignerInfoOfEnvelope(w *World, v ssa.Value, depth int) bool {
 }
 
 // c03Mapping: callers of the typed loader.
-func c03Mapping(c *Ctx, G *ssa.Function, L *ssa.Call, typeD, storesParam string) {
+func c03Mapping(c *Ctx, G *ssa.Function, L *ssa.Call, typeIn, storesIn c03Input) {
 	w := c.W
-	typeIdx, storesIdx := -1, -1
-	for i, p := range G.Params {
-		if "param:"+p.Name() == typeD {
-			typeIdx = i
-		}
-		if "param:"+p.Name() == storesParam {
-			storesIdx = i
-		}
-	}
-	if typeIdx < 0 || storesIdx < 0 {
+	if !typeIn.of(G) || !storesIn.of(G) {
 		c.Unk("mapping/params", "anchor: the loader's type and stores parameters", w.FnPos(G), "not found")
 		return
 	}
@@ -389,10 +380,19 @@ func c03Mapping(c *Ctx, G *ssa.Function, L *ssa.Call, typeD, storesParam string)
 			}
 			c.SeenFn(fn.String())
 			ffi := w.Info(fn)
-			v := call.Call.Args[typeIdx]
-			wr := wrap{fn: fn, storesArg: desc(call.Call.Args[storesIdx]), storesIdx: -1}
-			if sp, isP := call.Call.Args[storesIdx].(*ssa.Parameter); isP {
-				wr.storesIdx = c03ParamIndex(sp)
+			// what the call passes for the loader's two inputs: the argument, or what the caller put into the field of the
+			// parameter object it hands over (c03InputArg)
+			v, okV := c03InputArg(w, call, typeIn)
+			if !okV {
+				c.Bad("mapping/"+fnName(fn), "the store type handed to the loader is a constant chosen by the signing scheme", w.InstrPos(call), "the store type travels in a parameter object whose field cannot be followed to one value stored before the call")
+				continue
+			}
+			wr := wrap{fn: fn, storesArg: "a field of a parameter object that cannot be followed to one value stored before the call", storesIdx: -1}
+			if sv, okS := c03InputArg(w, call, storesIn); okS {
+				wr.storesArg = desc(sv)
+				if sp, isP := sv.(*ssa.Parameter); isP && sp.Parent() == fn {
+					wr.storesIdx = c03ParamIndex(sp)
+				}
 			}
 			type edge struct {
 				k    *ssa.Const
@@ -554,6 +554,19 @@ func c03Mapping(c *Ctx, G *ssa.Function, L *ssa.Call, typeD, storesParam string)
 			if k == `"tsa"` {
 				isTSA = true
 			}
+		}
+		// a wrapper that calls the loader at several sites (one per case) is one wrapper
+		dup := false
+		for i := range queue {
+			if queue[i].fn == wr.fn && queue[i].isTSA == isTSA {
+				dup = true
+				if queue[i].stores != wr.storesIdx {
+					queue[i].stores = -1
+				}
+			}
+		}
+		if dup {
+			continue
 		}
 		queue = append(queue, layer{fn: wr.fn, isTSA: isTSA, first: true, stores: wr.storesIdx, certIdx: 0})
 	}
